@@ -4,6 +4,8 @@ import (
 	"bytes"
 	"html"
 	"strings"
+	"unicode"
+	"unicode/utf8"
 
 	"github.com/textwire/textwire/v2/ast"
 	"github.com/textwire/textwire/v2/ctx"
@@ -567,7 +569,8 @@ func (e *Evaluator) evalObjectIndexExp(
 	}
 
 	// make first letter lowercase on idx
-	idxUpper := strings.ToUpper(idx[:1]) + idx[1:]
+	first, size := utf8.DecodeRuneInString(idx)
+	idxUpper := string(unicode.ToUpper(first)) + idx[size:]
 
 	if pair, ok = objObj.Pairs[idxUpper]; !ok {
 		return e.newError(node, fail.ErrPropertyNotFound, idx, object.OBJ_OBJ)
